@@ -58,7 +58,7 @@ const SLACK_US: u64 = 1_000;
 #[derive(Clone, Debug, PartialEq)]
 struct ReqCfg {
     lane: u32,
-    tmo_us: u64,   // 0 = no timeout configured
+    tmo_us: u64,   // 0 = no timeout configured; ZERO_TMO = a timeout of Duration::ZERO is configured
     delay_us: u64, // handler sleeps this long before replying
     start_us: u64,
     hf: u32, // fault applied by the handler itself on entry: 0 none, 1 hold, 2 partition
@@ -442,7 +442,7 @@ struct RunOut {
 fn horizon_us(case: &Case) -> u64 {
     let max_start = case.reqs.iter().map(|q| q.start_us).max().unwrap_or(0);
     let delays: u64 = case.reqs.iter().map(|q| q.delay_us).sum();
-    let max_tmo = case.reqs.iter().map(|q| q.tmo_us).max().unwrap_or(0);
+    let max_tmo = case.reqs.iter().filter_map(bound_of).max().unwrap_or(0);
     let last_ev = case.sched.iter().map(|s| s.0).max().unwrap_or(0);
     max_start.max(last_ev) + (CONNECT_US + 100_000) * case.reqs.len() as u64 + delays + max_tmo + 500_000
 }
@@ -514,8 +514,8 @@ fn run_case(case: &Case) -> RunOut {
 
             for (i, q) in case.reqs.iter().cloned().enumerate() {
                 let mut client = RpcClient::<EchoService>::new(lanes[q.lane as usize].clone());
-                if q.tmo_us > 0 && mutate() != 3 {
-                    client.set_timeout(Duration::from_micros(q.tmo_us));
+                if let (Some(b), true) = (bound_of(&q), mutate() != 3) {
+                    client.set_timeout(Duration::from_micros(b));
                 }
                 // Which public path issues the request is not part of the case's meaning: the
                 // configured client or a clone of it, a borrowed or an owned message.  It rotates
@@ -659,23 +659,21 @@ fn oracle(case: &Case, out: &RunOut, w: &mut CaseWriter, line: &str) {
             },
             Res::Panic => w.fail("request-panicked", line, &format!("request {i} panicked inside send")),
             Res::Pending => {
-                if q.tmo_us > 0 {
+                if bound_of(q).is_some() {
                     w.fail("deadline-missed", line, &format!("request {i} still pending at the horizon"));
                 } else if !case.has_fault() {
                     w.fail("pending-without-fault", line, &format!("request {i}"));
                 }
             },
         }
-        if q.tmo_us == 0 && out.results[i] == Res::Timeout {
+        if bound_of(q).is_none() && out.results[i] == Res::Timeout {
             w.fail("timeout-without-deadline", line, &format!("request {i}"));
         }
         if let Some(el) = out.ends[i] {
-            if q.tmo_us > 0 && el > q.tmo_us + SLACK_US {
-                w.fail(
-                    "deadline-missed",
-                    line,
-                    &format!("request {i} returned after {el} us, timeout {} us", q.tmo_us),
-                );
+            if let Some(b) = bound_of(q) {
+                if el > b + SLACK_US {
+                    w.fail("deadline-missed", line, &format!("request {i} returned after {el} us, timeout {b} us"));
+                }
             }
         }
     }
@@ -693,6 +691,16 @@ fn ev_time(ms: u64) -> u64 {
 }
 
 const TMOS: [u64; 5] = [0, 300 * MS, 1000 * MS, 2000 * MS, 3000 * MS];
+/// "a timeout of zero is configured" (an exhausted time budget): the request must end at once
+const ZERO_TMO: u64 = u64::MAX;
+/// the configured bound in microseconds, if any
+fn bound_of(q: &ReqCfg) -> Option<u64> {
+    match q.tmo_us {
+        0 => None,
+        ZERO_TMO => Some(0),
+        v => Some(v),
+    }
+}
 
 /// Bounded-exhaustive family: one request; every single fault event and every ordered
 /// pair of fault events at the phase points of the request.
@@ -707,8 +715,14 @@ fn gen_exhaustive(thorough: bool, out: &mut Vec<Case>) -> usize {
     let tmos: &[u64] = if thorough { &TMOS } else { &[0, 300 * MS, 3000 * MS] };
     let n0 = out.len();
     let mut salt = 1u64;
-    for &tmo in tmos {
+    let mut tmos: Vec<u64> = tmos.to_vec();
+    tmos.push(ZERO_TMO);
+    for &tmo in &tmos {
         for &delay in &[0u64, 500 * MS] {
+            if tmo == ZERO_TMO && delay == 0 {
+                // with a fast handler on a healthy link nothing tells a zero budget from a tiny one
+                continue;
+            }
             for hf in 0..3u32 {
                 let q = ReqCfg { lane: 0, tmo_us: tmo, delay_us: delay, start_us: start * MS, hf };
                 // no fault, single faults
@@ -798,7 +812,7 @@ fn gen_random(rng: &mut Rng, idx: u64) -> Case {
             3 => s + 2 * lat + rng.below(3),
             4 => s + 3 * lat + rng.below(4),
             5 => s + 2 * lat + q.delay_us / MS + rng.below(3),
-            6 => s + if q.tmo_us > 0 { q.tmo_us / MS } else { 2000 } - rng.below(3),
+            6 => s + match bound_of(q) { Some(b) if b >= 3 * MS => b / MS, _ => 2000 } - rng.below(3),
             7 => s + 2000 + rng.below(3) - 1,
             _ => s + rng.below(3000),
         };
@@ -937,8 +951,11 @@ fn main() {
                 Res::Status(_) => "res_status",
             };
             w.stats.hit(k);
-            if q.tmo_us > 0 {
+            if bound_of(q).is_some() {
                 w.stats.hit("req_with_timeout");
+            }
+            if q.tmo_us == ZERO_TMO {
+                w.stats.hit("req_with_zero_timeout");
             }
             if q.delay_us > 0 {
                 w.stats.hit("req_slow_handler");
